@@ -63,6 +63,9 @@ pub enum Mutation {
 pub enum Case {
     History(Vec<Action>),
     ResponseEq { headers: Vec<(String, String)>, body: Vec<u8>, rotate: u8, mutation: Mutation },
+    /// a response the API hands to the app is serialized (it implements `Serialize`: an app may put
+    /// it into its view model or persist it): the bytes must not depend on hash seeds
+    ResponseSer { headers: Vec<(String, String)>, body: Vec<u8>, rotate: u8 },
 }
 
 #[derive(Serialize, Deserialize)]
@@ -330,6 +333,29 @@ pub fn judge(c: &Case) -> Result<(), (String, String)> {
             }
             Ok(())
         }
+        Case::ResponseSer { headers, body, rotate } => {
+            let mut seen = std::collections::BTreeSet::new();
+            let headers: Vec<(String, String)> = headers.iter().filter(|(n, _)| seen.insert(n.to_ascii_lowercase())).cloned().collect();
+            let mut other = headers.clone();
+            if !other.is_empty() {
+                let k = *rotate as usize % other.len();
+                other.rotate_left(k);
+            }
+            let ser = |hs: &[(String, String)]| -> Result<(Vec<u8>, String), (String, String)> {
+                let r = build_response(200, hs, body);
+                Ok((opts().serialize(&r).map_err(|e| ("error".to_string(), e.to_string()))?, serde_json::to_string(&r).map_err(|e| ("error".to_string(), e.to_string()))?))
+            };
+            let first = ser(&headers)?;
+            for round in 0..16 {
+                // fresh maps, and every other round a fresh thread (a different hash seed)
+                let hs = if round % 2 == 0 { headers.clone() } else { other.clone() };
+                let next = if round % 4 < 2 { ser(&hs)? } else { std::thread::scope(|s| s.spawn(|| ser(&hs)).join().unwrap())? };
+                if next != first {
+                    return Err(("response-serialization-depends-on-hash-seed".into(), format!("one response (headers {headers:?}) serializes as {} and as {}", first.1, next.1)));
+                }
+            }
+            Ok(())
+        }
         Case::ResponseEq { headers, body, rotate, mutation } => {
             // distinct names only: the builder replaces
             let mut seen = std::collections::BTreeSet::new();
@@ -405,7 +431,8 @@ pub fn strategy() -> BoxedStrategy<Case> {
     let mutation = prop_oneof![3 => Just(Mutation::None), 1 => any::<u8>().prop_map(Mutation::DropHeader), 1 => Just(Mutation::AddHeader), 1 => any::<u8>().prop_map(Mutation::ChangeValue), 1 => Just(Mutation::ChangeStatus), 1 => Just(Mutation::ChangeBody)];
     prop_oneof![
         2 => prop::collection::vec(action, 1..14).prop_map(Case::History),
-        1 => (headers, prop::collection::vec(any::<u8>(), 0..6), any::<u8>(), mutation).prop_map(|(headers, body, rotate, mutation)| Case::ResponseEq { headers, body, rotate, mutation }),
+        1 => (headers.clone(), prop::collection::vec(any::<u8>(), 0..6), any::<u8>(), mutation).prop_map(|(headers, body, rotate, mutation)| Case::ResponseEq { headers, body, rotate, mutation }),
+        1 => (headers, prop::collection::vec(any::<u8>(), 0..6), any::<u8>()).prop_map(|(headers, body, rotate)| Case::ResponseSer { headers, body, rotate }),
     ]
     .boxed()
 }
@@ -416,6 +443,7 @@ fn reproducer(sig: &str) -> Option<Case> {
         "http-header-order-depends-on-hash-seed" => Some(Case::History(vec![Action::Send(Step::Http { command_api: true, post: false, url: "http://example.com/a".into(), headers: hs(8), body: None, multi: vec![] })])),
         "response-eq-depends-on-header-iteration-order" => Some(Case::ResponseEq { headers: hs(8), body: vec![], rotate: 3, mutation: Mutation::None }),
         "response-eq-ignores-header-difference" => Some(Case::ResponseEq { headers: vec![], body: vec![], rotate: 0, mutation: Mutation::AddHeader }),
+        "response-serialization-depends-on-hash-seed" => Some(Case::ResponseSer { headers: hs(8), body: vec![], rotate: 3 }),
         _ => None,
     }
 }
@@ -483,6 +511,7 @@ pub fn main(mode: Mode) {
                 }
                 (many || multi || cleared, l)
             }
+            Case::ResponseSer { headers, .. } => (headers.len() >= 3, vec!["kind:serialization", if headers.len() >= 3 { "ser:>=3-headers" } else { "ser:<3-headers" }]),
             Case::ResponseEq { headers, mutation, .. } => {
                 let in_headers = matches!(mutation, Mutation::DropHeader(_) | Mutation::AddHeader | Mutation::ChangeValue(_));
                 (in_headers || (headers.len() >= 3 && *mutation == Mutation::None), vec!["kind:equality", if *mutation == Mutation::None { "pair:equal-by-construction" } else if in_headers { "pair:differs-in-headers" } else { "pair:differs-elsewhere" }])
@@ -567,7 +596,7 @@ pub fn main(mode: Mode) {
                 Report {
                     prop,
                     tier,
-                    rule: "histories of 1-13 actions (HTTP requests with 0-8 headers and 0-2 multi-valued headers of 2-5 values through the command and the capability API, key-value set/get/list, time now / timers started and cleared - before or after they completed - through both time APIs, renders, answers to outstanding requests in generated order) replayed 3x on fresh threads through the bincode bridge and, for up to 400 of them, in 4 fresh processes; plus pairs of responses built independently from one description (headers inserted in rotated order; optionally one header dropped / added / changed, status or body changed), each pair rebuilt and compared 16x in both directions; non-trivial = a history with an HTTP request carrying >= 3 distinct header names or a multi-valued header, or with a timer that is started and a clear, or an equality pair that is equal by construction with >= 3 headers or differs only in headers; distinct = distinct case",
+                    rule: "histories of 1-13 actions (HTTP requests with 0-8 headers and 0-2 multi-valued headers of 2-5 values through the command and the capability API, key-value set/get/list, time now / timers started and cleared - before or after they completed - through both time APIs, renders, answers to outstanding requests in generated order) replayed 3x on fresh threads through the bincode bridge and, for up to 400 of them, in 4 fresh processes; plus pairs of responses built independently from one description (headers inserted in rotated order; optionally one header dropped / added / changed, status or body changed), each pair rebuilt and compared 16x in both directions; plus responses serialized (bincode and JSON) 17x from fresh maps, half of them on fresh threads, which must give identical bytes; non-trivial = a history with an HTTP request carrying >= 3 distinct header names or a multi-valued header, or with a timer that is started and a clear, or an equality pair that is equal by construction with >= 3 headers or differs only in headers; distinct = distinct case",
                     assumptions: vec![
                         "timer ids are renamed by first occurrence before comparing (the statement leaves their numbering open)".into(),
                         "fresh threads and fresh processes have different hash seeds (std RandomState)".into(),
